@@ -177,6 +177,31 @@ def run_case(spec, work):
         res = variant(hashseed=hs)
         counters['hashseed_runs'] = counters.get('hashseed_runs', 0) + 1
         compare(res, f'PYTHONHASHSEED={hs}')
+    # (c') every other stage except the statistics (whose sums may differ
+    #      in the last bit with the order of addition, see C09): any worker
+    #      count gives the same file, value for value
+    if not stage.startswith('mapping') and stage != 'stats':
+        vkeys = [k for k in keys if k.endswith('__values')
+                 or k == 'returned']
+        for npc in ([1, 3] if spec['tier'] == 'quick' else [1, 2, 3, 5]):
+            res = variant(n_proc=npc)
+            counters['worker_count_runs'] = counters.get(
+                'worker_count_runs', 0) + 1
+            if 'exception' in res:
+                viol.append({'sig': f'C04:variant-raises[{stage}]',
+                             'msg': f'{npc} workers: {res["exception"]}'})
+                continue
+            counters['runs_compared'] = counters.get('runs_compared', 0) + 1
+            for k in vkeys:
+                if res.get(k) != base.get(k):
+                    diff = [n for n in (base[k] if isinstance(base[k], dict)
+                                        else [])
+                            if res.get(k, {}).get(n) != base[k][n]]
+                    viol.append({
+                        'sig': f'C04:output-depends-on-worker-count[{stage}]',
+                        'msg': f'{npc} workers vs {default_np}: {k} '
+                               f'differs, datasets {diff[:6]}'})
+                    break
     # (c) worker counts inducing the same chunks (mapping: 12 cells, chunk 3)
     if stage in ('mapping', 'mapping_direct'):
         for npc in ([1, 4] if spec['tier'] == 'quick' else [1, 2, 4]):
